@@ -75,6 +75,8 @@ class Run:
             results = pool.map(_gen_worker, range(len(self.pending)), chunksize=1)
         for spec, res in zip(self.pending, results):
             if 'error' in res:
+                if res['error'].startswith('CRASH'):
+                    raise RuntimeError(f'engine crash while generating obligations of {spec.name}:\n' + res['error'])
                 self.undecided.append(f'{spec.name}: {res["error"]}')
                 continue
             self.specs.append(spec)
@@ -283,6 +285,8 @@ def _gen_worker(k):
         return dict(error=f'{type(ex).__name__}: {ex}')
     except z3.Z3Exception as ex:
         return dict(error=f'Z3Exception: {ex}')
+    except Exception:
+        return dict(error='CRASH ' + traceback.format_exc()[-1500:])
     obls = []
     for o in eng.obls:
         obls.append(dict(name=o.name, kind=o.kind, src=o.src, lineno=o.lineno, fn=o.fn, result=o.result,
